@@ -70,6 +70,8 @@ SIGNATURES = {"listener-name-reserved-by-dropped-entry": sig_name_reserved}
 
 def gen(rng, tier):
     cases = []
+    for _ in range(120 if tier == "quick" else 1500):
+        cases.append(dict(line=arbgen.gen_gc_single_edits(rng), tags=["gc-single-attribute-edit"]))
     for _ in range(150 if tier == "quick" else 2000):
         cases.append(dict(line=arbgen.gen_listener_handover(rng), tags=["listener-handover"]))
     for _ in range(120 if tier == "quick" else 1500):
